@@ -173,7 +173,7 @@ def sched_parts(pid: str, tier: str):
         parts.append(Part("valid-selections-do-not-raise-N2", P(run_c12, GCfg(N=2, indexed=True)), {"N": 2, "what": "executor runs for every (R, X, T) and alias form return; an unexecuted node reads as None, indexed or not"}, 600, 5, ["w_error_case"], GRAPH_FUNCS))
         from harness.faults import FCfg, run_c14_location
 
-        parts.append(Part("failure-report-names-usage-and-line", P(run_c14_location, FCfg()), {"usages of one node function": 3, "variants": "three call sites, nested DAG, function used by an earlier DAG, profiling on",
+        parts.append(Part("failure-report-names-usage-and-line", P(run_c14_location, FCfg()), {"usages of one node function": 3, "variants": "three call sites, nested DAG, function used by an earlier DAG, profiling on, failing usage reconfigured by config_from_dict",
                           "resources": "main-thread, thread, async-thread", "failing usage": "each"}, 300, 3, ["w_location_checked"],
                           ["tawazi.node.node.ExecNode.execute", "tawazi.node.node.ExecNode.get_call_location", "tawazi.node.node.LazyExecNode.__call__", "tawazi._dag.helpers.async_execute"]))
         if not q:
